@@ -10,6 +10,11 @@ CLAIMED = {
             "Every operator x every operand tuple (all pairs, selected triples, expt/ash sweeps, integer-vs-adjacent-float comparisons) over the boundary grid of the property is executed through ReadString+Eval and compared exactly with math/big, including canonical representation and operand immutability. Exhaustive inside the stated grid; nothing sampled.",
             "Trusted: math/big, the harness' type-switch value reader. Outside the grid nothing is claimed. Float arithmetic is not checked (outside the statement).",
             "DESIGN.md §5 C05"),
+    "C08": ("choice", "exploration",
+            "exhaustive enumeration of multi-definition programs x every order of their definitions x evaluation modes, executed on the real interpreter, compared with an order- and mode-independent reference evaluator and differentially across orders/modes",
+            "Every program of the alphabet (call graphs chain/join/mutual/fan/recursive/diamond x 19 call contexts x 0-3 traced arguments; macro, variable, closure and quoted-data families) is run in every order of its top-level definitions and in every mode (read+eval per form, whole, Code.Compile then eval, load, the same code object evaluated 3-5 times, redefinition between evaluations, caller evaluated before the callee exists and again after); value and trace of every evaluation are compared with an independent late-binding reference. Exhaustive inside the bound (quick 3.8e4 cases, thorough 2.3e5).",
+            "Trusted: the reference evaluator props/c08/ref.go (~850 lines; its discriminating power is measured by 9 mutated references on every run). What an early evaluation signals while a callee is missing is not constrained (only Go faults count).",
+            "DESIGN.md §5 C08, §10.4; reports/C08.md"),
     "C20": ("crash", "fault_enumeration",
             "exhaustive enumeration of operation histories x restart points x process-death points at every file-system step, on the real pkg/repl code over an in-memory file system injected by build overlay",
             "Every history inside the bound (History.Add/Clear/SetLimit, Stash.Add/Clear, setq of watched settings; forms with line breaks, TABs, blanks, non-ASCII) is executed on the real code with import \"os\" rewritten to an in-memory file system; a restart is simulated after every operation (reloaded == in-memory == reference), and for the last operation of every history a process death before every state-changing file-system step (create, truncate, each write, rename) is simulated, followed by restart, two more Adds and restarts. Exhaustive inside the bound.",
